@@ -28,8 +28,18 @@ type Knobs struct {
 	Persist    bool  `json:"persist,omitempty"`  // emulator 0 gets a persist path
 	NoAutoEmu  bool  `json:"noAutoEmu,omitempty"`
 	Sticky     int   `json:"sticky,omitempty"` // bias (0..100 %) towards continuing the task that ran last
-	IdleCap    int64 `json:"idleCapMs,omitempty"`
-	Dump       bool  `json:"dump,omitempty"` // engine dumps internal state after every reply (turn mode)
+	// Stall: 1-in-n chance per step that one runnable task is set aside for a
+	// tape-chosen number of steps (a slow node: everybody else keeps running; it
+	// comes back early only when nothing else can move)
+	Stall int `json:"stall,omitempty"`
+	// PCT: priority schedule of depth d (Burckhardt et al., "A randomized scheduler
+	// with probabilistic guarantees of finding bugs"): every actor (a connection's
+	// emulator goroutines, a client) gets a tape-drawn priority, the enabled actor
+	// of highest priority always runs, and at d-1 tape-drawn steps the running
+	// actor drops below everybody else. 0 = the uniform random walk.
+	PCT     int   `json:"pct,omitempty"`
+	IdleCap int64 `json:"idleCapMs,omitempty"`
+	Dump    bool  `json:"dump,omitempty"` // engine dumps internal state after every reply (turn mode)
 	// Order, when set, fixes whose script advances next (one client index per consumed item); used by minimised replays
 	Order []int `json:"order,omitempty"`
 }
